@@ -128,8 +128,7 @@ def main():
         "checks": checks,
         "notes": "All checks are runtime monitors over executions of the real code (see DESIGN.md). Exit 0 held on what was observed, 1 VIOLATION, 2 INCONCLUSIVE (observed too little), 3 build/usage error. known_findings.json lists recorded genuine defects (open) and repaired ones (fixed).",
     }
-    if na:
-        m["not_applicable"] = na
+    m["not_applicable"] = na  # empty: all 20 properties are claimed (DESIGN.md section 6)
     json.dump(m, open("/verif/MANIFEST.json", "w"), indent=1)
     print("MANIFEST.json written:", len(checks), "checks,", len(na), "not claimed")
 
